@@ -386,6 +386,46 @@ func c08Limits(c *Ctx) {
 		}
 	}
 	c08HugeLimits(c)
+	c08DefaultLimit(c)
+}
+
+// c08DefaultLimit: a mux built without a receive option enforces the documented default of 4 MiB.
+func c08DefaultLimit(c *Ctx) {
+	sfx, err := newStreamFx()
+	if err != nil {
+		c.Note("c08 default fixture: " + err.Error())
+		return
+	}
+	defer sfx.fx.Close()
+	const def = 4 << 20
+	for _, target := range []int{def, def + 1} {
+		var d []byte
+		for n := target - 6; n <= target; n++ {
+			if e, _ := proto.Marshal(reqWithData(sfx.fx, make([]byte, n))); len(e) == target {
+				d = make([]byte, n)
+			}
+		}
+		if d == nil {
+			continue
+		}
+		d[0], d[len(d)-1] = 7, 9
+		enc, _ := proto.Marshal(reqWithData(sfx.fx, d))
+		for _, tr := range []string{"application/grpc+proto", "application/grpc-web+proto"} {
+			sfx.reset(nil)
+			_, pn := sfx.serveStream("POST", "/verif.v1.Svc/Up", map[string]string{"Content-Type": tr}, grpcFrame(0, enc), nil, false, tr == "application/grpc+proto")
+			in := fmt.Sprintf("default receive limit (no option): %s message of %d bytes", tr, target)
+			c.Eval("default-limit", in, true)
+			reached := len(sfx.got) == 1 && len(sfx.got[0]) == len(d)
+			switch {
+			case pn != nil:
+				c.SpecFail("default-limit", in, fmt.Sprint("panic: ", pn), "no panic", "C08/default-limit/panic", "panic")
+			case target > def && reached:
+				c.SpecFail("default-limit", in, "delivered to the handler", "an error", "C08/default-limit/over-limit-delivered", "a message over the default receive limit reaches the handler")
+			case target <= def && !reached:
+				c.SpecFail("default-limit", in, "refused", "delivered", "C08/default-limit/within-limit-refused", "a message of exactly the default receive limit is refused")
+			}
+		}
+	}
 }
 
 // c08HugeLimits: configured limits are ints; on 64-bit platforms they may pass 2^32 (the width of a
